@@ -125,3 +125,12 @@ add('C15', 'Hypothesis generated workbooks (grid of headers and cells written wi
     '(walking the columns in sheet order), also when the same rows are read again in reversed order in the same process (no value leaks between rows or calls). Exploration only.',
     'Trusted: pandas/openpyxl cell semantics (cells they treat as missing or re-type are not generated / compared numerically); the presets table as data.',
     'DESIGN.md 3/C15')
+add('C06', 'Hypothesis generated mechanisms (sites, species, reactions, run conditions, writer options) + reference parsers of the written files, recomputation of every printed number, read-back with read_reactions',
+    'Mechanisms with 1-3 catalyst sites (shared or distinct bulk), gas species, adsorbates with occupancies, vacancy and bulk species and 1-10 reactions (adsorption with sticking coefficient, '
+    'surface steps with/without TS, gas reactions) are written with every activation-method name, energy unit, site-density operation, MW flag, float format and delimiter pair; gas.inp, '
+    'surf.inp, EAs.inp, EAg.inp, T_flow.inp and tube_mole.inp are parsed by keyword/slash-based reference parsers: every element, species, site, adsorbate (with occupancy), bulk species and '
+    'reaction must appear exactly once in the file where it belongs, declared counts must equal the rows that follow, every printed number must equal the model value in the writer\'s own '
+    'format (and, where no activation entropy enters, the documented kB/h/sigma^(n-1) computed by the harness), and read_reactions must return the model\'s species and integer '
+    'stoichiometry. Exploration only.',
+    'Trusted: the model getters for A/Ea (C09), the reference parsers of vf/p06.py; reactions are site-conserving (no gas-only reactants with surface/bulk products).',
+    'DESIGN.md 3/C06')
